@@ -67,7 +67,11 @@ func actLog(rec *rt.Recorder) []int {
 
 func logStr(rec *rt.Recorder) string {
 	var s []string
-	for _, e := range rec.Log {
+	for i, e := range rec.Log {
+		if i >= 40 {
+			s = append(s, fmt.Sprintf("... (%d events)", len(rec.Log)))
+			break
+		}
 		s = append(s, e.String())
 	}
 	return strings.Join(s, " ")
@@ -255,6 +259,9 @@ func init() {
 				return
 			}
 			for _, t := range terms {
+				if st.enough() {
+					return
+				}
 				seq = append(seq, t)
 				e.Extend(t)
 				alive := viable[len(viable)-1]
